@@ -684,6 +684,9 @@ func (env *Env) callExpr(e *CExpr) CVal {
 			env.fail("addr() of a non-lvalue")
 		}
 		return CVal{T: v.Addr, Ty: types.NewPointer(v.Ty)}
+	case "payloadNonNil": // the pointer stored in an interface value is not nil
+		v := env.force(arg(0))
+		return CVal{T: Neq(Acc("iref", v.T), Null), Ty: boolT}
 	case "fid":
 		f := env.force(arg(0))
 		return CVal{T: Acc("fid", f.T)}
